@@ -43,7 +43,11 @@ Apply(o, t) ==
     [] t.ev = "GiveUp"    -> OGiveUp(o, t.b, t.ids)
     [] t.ev = "Fail"      -> OFail(o, t.id)
     [] t.ev = "BCommit"   -> OBatchCommit(o, t.b, t.id, t.nosend)
-    [] t.ev = "Commit"    -> OCommit(o, t.id, t.by)
+    \* the input is notified under the stream the event was read in (a recycled event object must not keep another line's stream)
+    [] t.ev = "Commit"    -> LET o1 == OCommit(o, t.id, t.by)
+                             IN IF "stream" \in DOMAIN t /\ t.id \in Ev /\ o.meta[t.id].stream # "" /\ t.stream # o.meta[t.id].stream
+                                  THEN [o1 EXCEPT !.viol = @ \cup {V("commit_in_foreign_stream", t.id, 0, t.by, t.stream)}]
+                                  ELSE o1
     [] t.ev = "End"       -> IF t.idle THEN OEnd(o, t.inuse, t.waiters)
                              \* no idle state within the (generous) bound after the last input: a wedge (C04); events still
                              \* held by then are events the pool never got back (C05: in-use returns to zero when the pipeline goes quiet)
